@@ -121,6 +121,11 @@ fn explore(ctx: &Ctx) -> Outcome {
     // long multi-byte strings at every alignment
     let mut mb = binfam::multibyte_alignment();
     mb.extend(binfam::kana_family());
+    mb.extend(binfam::tricky_family());
+    mb.extend(binfam::collation_family());
+    mb.extend(binfam::many_labels_family());
+    let (dl, dd) = ctx.tier.pick((300, 300), (1300, 4400));
+    mb.extend(binfam::dense_family(dl, dd));
     let t = mb
         .par_iter()
         .fold(Tally::new, |mut t, c| {
@@ -132,7 +137,7 @@ fn explore(ctx: &Ctx) -> Outcome {
             t
         })
         .reduce(Tally::new, Tally::merge);
-    layers.push(json!({"family": "strings of 62..403 Shift-JIS bytes made of two-byte characters at byte alignments 0..3", "archives": mb.len(), "completed": true}));
+    layers.push(json!({"family": format!("strings of 62..403 Shift-JIS bytes made of two-byte characters at byte alignments 0..3; the shared tricky-string catalogue ({} strings: trail byte 0x5C / 'n', half-width pairs valid as UTF-8, 2-byte-in-both-encodings + ASCII, IBM-extension kanji, one character per lead×trail byte class) in every role; collation-inversion label pairs; 3..=40 cells × 1..=3 unsorted labels; DENSE sweeps: every string/c-string/label length 0..={} and every data length 0..={}", vcore::sjis::tricky_strings().len(), dl, dd), "archives": mb.len(), "completed": true}));
     total.absorb(t);
     // call histories: a failing parse (every truncation of an image) followed by a good parse on one thread
     {
@@ -155,6 +160,24 @@ fn explore(ctx: &Ctx) -> Outcome {
             }
         }
         layers.push(json!({"family": "call histories: failing parse of every truncation, then a full round trip, on one thread", "cuts": img.len(), "completed": true}));
+        total.absorb(t);
+    }
+    // state carried between calls: the fixed series of failing parses / failing serializations /
+    // odd strings (props::poison) on the same thread right before representative cases
+    {
+        let mut t = Tally::new();
+        let reps: Vec<Content> = binfam::kana_family().into_iter().chain(binfam::length_sweep().into_iter().step_by(29)).collect();
+        for c in &reps {
+            props::poison::failing_calls();
+            t.cases += 1;
+            t.nontrivial += 1;
+            if let Some((sig, summary)) = judge(c, &mut t, true) {
+                let mut cj = binfam::describe(c);
+                cj["after_failed_calls"] = json!(true);
+                t.violate(format!("after-failed-calls:{}", sig), summary.chars().take(500).collect::<String>(), cj);
+            }
+        }
+        layers.push(json!({"family": "a fixed series of failing parses / failing serializations / odd strings on the same thread right before the case", "cases": reps.len(), "completed": true}));
         total.absorb(t);
     }
     // large archives (tables and text beyond 64 KiB; a ladder of cell counts)
@@ -214,6 +237,10 @@ fn replay(_ctx: &Ctx, case: &Value) -> Vec<Violation> {
     }
     let c = binfam::content_from_json(case);
     let mut t = Tally::new();
+    if case["after_failed_calls"].as_bool().unwrap_or(false) {
+        props::poison::failing_calls();
+        return judge(&c, &mut t, true).map(|(sig, summary)| vec![Violation { sig: format!("after-failed-calls:{}", sig), summary, case: case.clone() }]).unwrap_or_default();
+    }
     match judge(&c, &mut t, true) {
         Some((sig, summary)) => vec![Violation { sig, summary, case: case.clone() }],
         None => vec![],
